@@ -1,7 +1,8 @@
 """C09 — decoding arbitrary bytes is safe: clean rejection or a well-formed value."""
 from decfam import *  # noqa
 
-THEOREMS = []
+THEOREMS = ["C09_total", "C09_uint_stable", "C09_bool_sound"]
+PARTIAL = ["C09_sound (accepted => well-formed value with consistent root / encoding / length, stable under re-decoding) is proved for uintN and boolean only; the decoder model is total by construction for every type; composite kinds are tied by the correspondence (~15k byte strings per run: exhaustive short strings, exhaustive first/last byte of valid encodings, structure-aware corruptions) with model-free oracles for readability, limits, content-vs-root-vs-encoding consistency and encode/decode stability"]
 COQ_IMPORTS = ["RM.Types", "RMR.RunV"]
 COQ_FN = "RunV.run_dec"
 COQ_CASE_TY = "(ty * bytes)"
